@@ -125,3 +125,48 @@ fn num_nonzero() {
         obl!(raw_bytes(a) == raw_bytes(b), "num.nonzero_is_get", "C14");
     }
 }
+
+// ---------------------------------------------------------------------------------------
+// i128 / u128: the crate hands the value to the `itoa` crate and the text to from_str.
+// Delegation contract (itoa's digits themselves are a dependency's: assumed)
+// ---------------------------------------------------------------------------------------
+
+static mut I_CALLS: usize = 0;
+static mut I_SIZE: usize = 0;
+static mut I_VAL: [u8; 16] = [0; 16];
+static mut F_CALLS: usize = 0;
+static mut F_PTR: *const u8 = core::ptr::null();
+static mut F_LEN: usize = 0;
+static ITOA_OUT: &str = "itoa-output";
+
+fn rec_itoa<I: itoa::Integer>(_b: &mut itoa::Buffer, i: I) -> &str {
+    unsafe {
+        I_CALLS += 1;
+        I_SIZE = core::mem::size_of::<I>();
+        if core::mem::size_of::<I>() == 16 {
+            I_VAL = core::mem::transmute_copy::<I, [u8; 16]>(&i);
+        }
+    }
+    ITOA_OUT
+}
+fn rec_from_str(text: &str) -> Result<Repr, ReserveError> {
+    unsafe {
+        F_CALLS += 1;
+        F_PTR = text.as_ptr();
+        F_LEN = text.len();
+    }
+    Ok(Repr::new())
+}
+
+// @harness name=num_128_delegates props=C14 class=U tier=quick fn=NumToRepr<i128>::into_repr,NumToRepr<u128>::into_repr
+#[kani::proof]
+#[kani::stub(itoa::Buffer::format, rec_itoa)]
+#[kani::stub(Repr::from_str, rec_from_str)]
+fn num_128_delegates() {
+    let signed: bool = kani::any();
+    let bits: [u8; 16] = kani::any();
+    let r = if signed { Repr::from_num(i128::from_ne_bytes(bits)) } else { Repr::from_num(u128::from_ne_bytes(bits)) };
+    obl!(r.is_ok(), "num128.ok", "C14");
+    obl!(unsafe { I_CALLS == 1 && I_SIZE == 16 && I_VAL == bits }, "num128.every_value_goes_to_itoa_unchanged", "C14");
+    obl!(unsafe { F_CALLS == 1 && F_PTR == ITOA_OUT.as_ptr() && F_LEN == ITOA_OUT.len() }, "num128.text_is_itoas_output", "C14");
+}
